@@ -233,6 +233,7 @@ func runC17(e *Engine, r *Report) {
 	}
 	// ---- deadlines keep advancing and expire (shared with C12)
 	c17Tables(e, r)
+	ruleMatchAck(e, r, tbl)
 }
 
 // c17Tables: node.tick advances every table clock on every path; gc reachable.
